@@ -681,6 +681,14 @@ impl Session {
 
         let resp = HandshakeResp::from(payload.iter().copied())?;
 
+        if resp.mtu < MIN_MTU - GATT_HEADER_SIZE as u16
+            || resp.mtu > MAX_MTU - GATT_HEADER_SIZE as u16
+            || resp.window_size == 0
+        {
+            warn!("RX handshake integrity failure: unusable segment size or window size");
+            return Err(ErrorCode::InvalidData.into());
+        }
+
         debug!("\n>>RCV (BTP IO) {} [{}]\n      HANDSHAKE RESP {:?}\nSelected version: {}, MTU: {}, window size: {}", address, hdr, resp, resp.version, resp.mtu, resp.window_size);
 
         self.setup(address, resp.version, resp.mtu, resp.window_size);
